@@ -19,6 +19,8 @@
 //!           U      deliver the pending stream/future-end event with the smallest handle (wakeup reads)
 //!           K<n>   wake slot n from outside any task          Z<n>  drop slot n from outside
 //!           S<j>   start a new component task with root body j
+//!           P      a task that answered YIELD is not resumed yet: the NEXT directive is carried out first (the window
+//!                  between a YIELD answer and the callback that resumes the task; `hold:skip` if nobody yielded)
 //!           X<i>   the host cancels task i (EVENT_CANCEL); when directives run out every live task is cancelled
 use crate::alloc_check as ca;
 use crate::host::{self, EVENT_CANCEL, EVENT_NONE};
@@ -57,6 +59,7 @@ enum Dir {
     WDrop(usize),
     Start(usize),
     Cancel(usize),
+    Hold,
 }
 
 #[derive(Clone, Copy, PartialEq, Debug)]
@@ -128,6 +131,7 @@ fn parse(line: &str) -> Option<Script> {
             }
             "D" => Dir::Dlv(idx(arg)?),
             "U" if arg.is_empty() => Dir::DlvEnd,
+            "P" if arg.is_empty() => Dir::Hold,
             "K" => Dir::Wake(wk(arg)?),
             "Z" => Dir::WDrop(wk(arg)?),
             "S" => Dir::Start(bd(arg)?),
@@ -490,6 +494,7 @@ fn run_start(dirs: Vec<Dir>) {
     start(&mut tasks, 0);
     let mut dirs = dirs.into_iter().peekable();
     let mut fuel = 400;
+    let mut hold = false;
     loop {
         fuel -= 1;
         if fuel == 0 {
@@ -500,9 +505,17 @@ fn run_start(dirs: Vec<Dir>) {
             ev("abort");
             return;
         }
-        // tasks that yielded are called back first (EVENT_NONE), unless the host cancels them now
-        if let Some(i) = tasks.iter().position(|t| t.alive && t.code & 0xf == 1) {
+        // tasks that yielded are called back first (EVENT_NONE), unless the host cancels them now or holds
+        // them back for one directive (`P`)
+        let yielded = if hold { None } else { tasks.iter().position(|t| t.alive && t.code & 0xf == 1) };
+        if let Some(i) = yielded {
             let id = tasks[i].id;
+            if matches!(dirs.peek(), Some(Dir::Hold)) {
+                dirs.next();
+                ev("hold");
+                hold = true;
+                continue;
+            }
             if matches!(dirs.peek(), Some(Dir::Cancel(c)) if *c == id) {
                 dirs.next();
                 ev(&format!("X{id}"));
@@ -513,7 +526,12 @@ fn run_start(dirs: Vec<Dir>) {
             continue;
         }
         let waiting = |tasks: &Vec<Task>, set: u32| tasks.iter().position(|t| t.alive && t.code & 0xf == 2 && t.code >> 4 == set);
+        // while holding, exactly one directive is carried out
+        let was_hold = hold;
+        hold = false;
         match dirs.next() {
+            Some(Dir::Hold) => ev("hold:skip"),
+            None if was_hold => continue,
             Some(Dir::Adv(k, st)) => host::advance(k, st),
             Some(Dir::Dlv(k)) => {
                 let h = host::HOST.with(|h| h.borrow().call_handle[k]);
@@ -606,6 +624,7 @@ fn on_wait(set: u32) {
                     return;
                 }
             }
+            Ok(Some(Dir::Hold)) => ev("hold:skip"),
             Ok(Some(Dir::Start(j))) => ev(&format!("S{j}:skip")),
             Ok(Some(Dir::Cancel(i))) => ev(&format!("X{i}:skip")),
             Ok(None) => {
